@@ -9,6 +9,8 @@ sys.path.insert(0, os.path.dirname(os.path.abspath(__file__)))
 
 from common import *          # noqa
 import ref_weier as W
+import c04
+import groups
 
 
 def hx(b):
@@ -31,6 +33,11 @@ def gen(rng, shard, nshards, n):
         T = "s %s " % cname
         for _ in range(n):
             d = rng.randrange(1, N) if rng.randrange(8) else rng.choice([1, 2, N - 1, N - 2])
+            if rng.randrange(3) == 0:
+                # structured private scalars (window-recoding carries, endomorphism-split rounding boundaries on secp256k1)
+                hd, _ = c04.hostile_scalar(rng, groups.GROUPS[cname])
+                if hd % N:
+                    d = hd % N
             Q = C.mulgen(d)
             pk = C.encode_compressed(Q) if rng.randrange(2) else C.encode_uncompressed(Q)
             kind = rng.choices(["honest", "forged", "invalid"], [30, 35, 35])[0]
